@@ -97,7 +97,23 @@ func (x *fx) memArraySort(name string) string {
 
 func (x *fx) declMemVersion(name, tag string) string {
 	v := "|" + name + "@" + tag + "|"
+	if x.declSeen[v] {
+		return v
+	}
 	x.declare(v, x.memArraySort(name))
+	// int mode: every cell of an integer-typed memory holds a value of its type
+	if x.mode == ModeInt && !strings.HasPrefix(name, "$") {
+		if t, ok := x.memType[name]; ok {
+			et := t
+			if a, ok := t.Underlying().(*types.Array); ok {
+				et = a.Elem()
+			}
+			if _, isI := isInt(et); isI {
+				lo, hi := intRange(et)
+				x.assume(fmt.Sprintf("(forall ((r Int) (i Int)) (! (and (<= %s (select (select %s r) i)) (<= (select (select %s r) i) %s)) :pattern ((select (select %s r) i))))", smtInt(lo), v, v, smtInt(hi), v))
+			}
+		}
+	}
 	return v
 }
 
